@@ -104,6 +104,17 @@ def run(prop, tier, seed, workdir):
         cid += 1
         meta[cid] = ("f", cp)
         lines.append("%d f %d" % (cid, cp))
+    # wcsfc_s on strings: characters that fold to one, two, three and four elements (and decompose), every dmax from 1 to ample
+    # (dest flush against the guard page: a stored element too many faults)
+    foldchars = [0x41, 0x61, 0xDF, 0xFB03, 0x1F82, 0x390, 0x3A3, 0x130, 0xC5, 0x1E9E, 0x149, 0x1F0, 0x1FB7, 0x587, 0x10400, 0x4E00]
+    fstrings = [[c] for c in foldchars] + [[c, c] for c in (0xDF, 0xFB03, 0x1F82)] + [[0xFB03] * 3, [0x41, 0xFB03], [0xFB03, 0x41], [0x1F82, 0xDF, 0x41]]
+    for _ in range(60 if tier == "quick" else 1500):
+        fstrings.append([rnd.choice(foldchars) for _ in range(rnd.randint(1, 6))])
+    for fs in fstrings:
+        for dmax in range(1, 4 * len(fs) + 8):
+            cid += 1
+            meta[cid] = ("w", 0, dmax, fs)
+            lines.append("%d w %d %d %s" % (cid, dmax, len(fs), " ".join(map(str, fs))))
     b = build.ensure(["slack"], [("hnorm", "slack")])
     exe = b[("hnorm", "slack")]
     k = 16
@@ -120,7 +131,10 @@ def run(prop, tier, seed, workdir):
             pos += len(got)
             if pos < len(ch):
                 t = ch[pos].split()
-                if t[1] == "n":
+                if t[1] == "w":
+                    out.append(json.dumps(dict(id=int(t[0]), op="w", dmax=int(t[2]), s=[int(x) for x in t[4:]], each=[1 for x in t[4:]], post=[], rc=-9999, len=0, h=[], hn=0, hk="",
+                                               frame_ok=True, fault="abort")))
+                elif t[1] == "n":
                     out.append(json.dumps(dict(id=int(t[0]), op="n", mode=int(t[2]), dmax=int(t[3]), s=[int(x) for x in t[5:]], post=[], rc=-9999, len=0, h=[], hn=0, hk="",
                                                frame_ok=True, fault="abort")))
                 else:
@@ -152,7 +166,9 @@ def run(prop, tier, seed, workdir):
     n, bad, st = tlc.validate("TraceNorm", os.path.join(tlc.SPEC, "TraceNorm.cfg"), events, workdir, jvms=16, heap="3g")
     for bd in bad:
         m = meta[bd["i"]]
-        if m[0] == "n":
+        if m[0] == "w":
+            desc = "wcsfc_s(dmax=%d, %s): %s" % (m[2], " ".join("U+%04X" % c for c in m[3][:10]), bd["why"])
+        elif m[0] == "n":
             desc = "wcsnorm_s(%s, dmax=%d, %s): %s" % ("NFC" if m[1] else "NFD", m[2], " ".join("U+%04X" % c for c in m[3][:10]), bd["why"])
         else:
             desc = "fold U+%04X: %s" % (m[1], bd["why"])
@@ -166,7 +182,7 @@ def run(prop, tier, seed, workdir):
              "(starter, mark) pairs alone and with an interposed ccc-220 mark, Hangul L/V/T and syllables, seeded random starter+marks strings of length <= 12 "
              "(incl. > 10 marks), a seeded sample (thorough: all) of the other assigned code points, out-of-range and surrogate values, NFD and NFC, dmax "
              "from the documented minimum / exact fit to ample, each successful result normalized again; fold: iswfc vs towfc_s vs wcsfc_s for %d code "
-             "points. TraceNorm.tla compares with NFD/NFC of NormDefs.tla (tables from python3 unicodedata 14.0). non-trivial = distinct input strings" % (
+             "points; wcsfc_s on strings of characters folding to 1-4 elements for every dmax from 1 to ample (terminated, inside dmax, no longer than the characters alone, cleared and reported once on failure, success with the documented room). TraceNorm.tla compares with NFD/NFC of NormDefs.tla (tables from python3 unicodedata 14.0). non-trivial = distinct input strings" % (
                  3 if tier == "quick" else 4, len(foldcps)),
         samples=[dict(op=meta[i][0], mode=meta[i][1], dmax=meta[i][2], s=meta[i][3]) for i in (1, 2001, 4001) if i in meta and meta[i][0] == "n"],
         exhaustive=False, checker_cmd="tlc Norm.tla (INVARIANTS Idempotent Agree Lengths); tlc TraceNorm.tla")
@@ -181,7 +197,7 @@ def replay(rp, workdir):
     line = rp.get("line")
     if not line:        # an event recorded from the repository's tests: the same call, rebuilt from its description
         m = rp["meta"]
-        line = "1 n %d %d %d %s" % (m[1], m[2], len(m[3]), " ".join(map(str, m[3])))
+        line = ("1 w %d %d %s" % (m[2], len(m[3]), " ".join(map(str, m[3])))) if m[0] == "w" else "1 n %d %d %d %s" % (m[1], m[2], len(m[3]), " ".join(map(str, m[3])))
     p = subprocess.run([b[("hnorm", "slack")]], input=line + "\n", stdout=subprocess.PIPE, text=True, timeout=60)
     evs = ['{"slack":1,' + ln[1:] for ln in p.stdout.splitlines() if ln.startswith("{")]
     print("\n".join(evs))
